@@ -60,6 +60,35 @@ def _followed_by_state(pdb, fn, store, want, retsets):
     return bool(sel) and all(o["counts"].get("to") == str(want) for o in sel)
 
 
+HANDLER = "rtr_handle_cache_response_pdu"
+
+
+def _after_answer(pdb, fn, inst, depth=3):
+    """where the cache's answer (a Cache Response handed to its handler) may already have been accepted when `inst` runs:
+    a handler call from which inst is reachable, in fn or - through the call sites of fn - in its callers"""
+    for h in fn.calls(HANDLER):
+        if (h.block.id == inst.block.id and h.idx < inst.idx) or inst.block.id in fn.reachable_blocks(h.block.id):
+            return h.loc()
+    if depth > 0:
+        for c in pdb.callers(fn.name):
+            r = _after_answer(pdb, c.fn, c, depth - 1)
+            if r:
+                return r
+    return None
+
+
+def _reached(pdb, fn, inst, retsets):
+    """some path of fn executes inst (a copy of an inlined helper specialised by a constant argument may be dead)"""
+    hit = []
+
+    def classify(i, E, st):
+        if i is inst:
+            hit.append(1)
+        return None
+    es.count_effects(fn, pdb, classify, retsets)
+    return bool(hit)
+
+
 def r1(ctx, retsets):
     pdb = ctx.pdb
     ctx.rule("C13.R1", "every store to the negotiated version outside rtr_init lowers it: constant below the value the "
@@ -139,6 +168,13 @@ def r1(ctx, retsets):
             fast = _followed_by_state(pdb, fn, s, st["RTR_FAST_RECONNECT"], retsets)
             ctx.check(c1 and c2 and fast, "C13.R1", "hang-up-downgrade:conditions", s.loc(),
                       "connection closed=%s, no session yet=%s, followed by RTR_FAST_RECONNECT=%s" % (c1, c2, fast), key="C13.R1:hang-up:conditions")
+            # RFC 8210 section 7: the hang-up that means 'I do not speak this version' is the one that answers the query; once a
+            # Cache Response was accepted the cache has shown that it does, and a later hang-up is a transport failure
+            ans = _after_answer(pdb, fn, s)
+            ctx.check(ans is None, "C13.R1", "hang-up-downgrade:before-any-answer", s.loc(),
+                      "no Cache Response can have been accepted before this receive failed" if ans is None else
+                      "reachable after the Cache Response was accepted at %s: a cache that already answered in this version is downgraded" % ans,
+                      key="C13.R1:hang-up:before-answer:%s" % fn.name)
     for k in ("first-pdu", "error-report", "hang-up"):
         ctx.check(k in triggers, "C13.R1", "trigger-present:%s" % k, "rtrlib/rtr/packets.c", "downgrade trigger '%s' exists" % k,
                   key="C13.R1:trigger:%s" % k)
@@ -365,4 +401,7 @@ WITNESSES = [
     {"id": "C13.w-downgrade-before-the-length-checks", "rule": "C13.R1", "file": PK,
      "old": "\t// if header->len is < packet_header = corrupt data received\n\tif (header.len < sizeof(header)) {",
      "new": "\tif (!rtr_socket->has_received_pdus && rtr_socket->version == RTR_PROTOCOL_VERSION_1 && header.ver == RTR_PROTOCOL_VERSION_0 &&\n\t    header.type != ERROR)\n\t\trtr_socket->version = RTR_PROTOCOL_VERSION_0;\n\t// if header->len is < packet_header = corrupt data received\n\tif (header.len < sizeof(header)) {"},
+    {"id": "C13.w-hang-up-downgrade-after-the-answer", "rule": "C13.R1", "file": "rtrlib/rtr/packets.c",
+     "old": "\t\tpthread_cleanup_pop(0);\n\n\t\tif (retval == TR_WOULDBLOCK || retval == TR_CLOSED) {",
+     "new": "\t\tpthread_cleanup_pop(0);\n\n\t\tif (retval == TR_CLOSED && rtr_socket->request_session_id && rtr_socket->version > RTR_PROTOCOL_MIN_SUPPORTED_VERSION) {\n\t\t\trtr_socket->version = rtr_socket->version - 1;\n\t\t\trtr_change_socket_state(rtr_socket, RTR_FAST_RECONNECT);\n\t\t\tretval = RTR_ERROR;\n\t\t\tgoto cleanup;\n\t\t}\n\t\tif (retval == TR_WOULDBLOCK || retval == TR_CLOSED) {"},
 ]
